@@ -7,6 +7,7 @@
 
 #include <ImathVec.h>
 #include "PyImathBufferProtocol.h"
+#include <cstring>
 #include "PyImathExport.h"
 #include "PyImathFixedArray.h"
 #include "PyImathFixedArrayTraits.h"
@@ -359,6 +360,27 @@ fixedArrayFromBuffer (PyObject *obj)
     {
         PyBuffer_Release(&view);
         throw std::invalid_argument ("Unsupported buffer type");
+    }
+
+    // The source must describe exactly the memory of the array being built:
+    // same element kind and size, same number of dimensions and row width,
+    // contiguous, so that the copy below neither reads nor writes out of bounds.
+    typedef typename ArrayT::BaseType T;
+    const char *srcFormat = view.format;
+    if (srcFormat[0] == '@' || srcFormat[0] == '<') srcFormat++;
+    const Py_ssize_t atomicSize = FixedArrayAtomicSize<T>::value;
+    const Py_ssize_t width      = FixedArrayWidth<T>::value;
+    const int        dimensions = FixedArrayDimension<T>::value;
+    if (strcmp (srcFormat, PyFormat<T>()) != 0 ||
+        view.itemsize != atomicSize ||
+        view.ndim != dimensions ||
+        view.shape == nullptr ||
+        (dimensions == 2 && view.shape[1] != width) ||
+        view.len != view.shape[0] * width * atomicSize ||
+        !PyBuffer_IsContiguous (&view, 'C'))
+    {
+        PyBuffer_Release(&view);
+        throw std::invalid_argument ("Buffer element type, size or shape does not match the array type");
     }
 
     ArrayT *array = new ArrayT (view.shape[0], PyImath::UNINITIALIZED);
